@@ -332,3 +332,14 @@ Lemma unwrap_isolated_pixel_full :
       forall x, x < n -> (forall y, ~ In (x, y) ps /\ ~ In (y, x) ps) ->
                 (nth x out 0%Q == phiw x + c0)%Q.
 Proof. intros P n ps phiw. apply unwrap_isolated_pixel. Qed.
+
+Lemma harness_observables_full :
+  forall (n : nat) (es : list edge),
+    option_map fst (uf_run_obs n es) = uf_offsets n es /\
+    (forall o s, uf_run_obs n es = Some (o, s) -> uf_state n es = Some s) /\
+    (forall k s, nth_error (uf_trace n es) k = Some (Some s) ->
+       exists st', run (fuel_of es) (uf_init n) (firstn (S k) es) = Some st' /\ s = st_z st').
+Proof.
+  intros n es. destruct (uf_run_obs_spec n es) as [A B]. split; [exact A|]. split; [exact B|].
+  intros k s Hk. unfold uf_trace in Hk. eapply uf_trace_from_spec. exact Hk.
+Qed.
